@@ -17,7 +17,10 @@ RULE = ("fixed enumeration: string literals of syntax/filetests_test.go and synt
         "grammar-generated programs per variant (not zsh); a systematic enumeration of ~31k small arithmetic expressions (binary "
         "operator x operand whose leftmost leaf carries a prefix sign, also under a tighter-binding operator; postfix ++/-- on "
         "the left) in every arithmetic context ($(( )), (( )), $[ ], slice offset/length, array subscripts, for (( ))), in bash "
-        "and posix/mksh. Options: quick = pairwise covering array of Indent 0..8 x 7 flags "
+        "and posix/mksh; a systematic enumeration of ~4.6k combinations of interacting constructs (redirect words that are command/"
+        "process substitutions ending in & or ; before every closing keyword; two or three heredocs opened on one line with all "
+        "delimiter kinds; a comment inserted after every token and token pair of one-line compound commands incl. all function "
+        "spellings; comments inside substitutions inside heredoc bodies with comments after the heredoc). Options: quick = pairwise covering array of Indent 0..8 x 7 flags "
         "(+ the refused Minify+SingleLine row) with Simplify alternating, plus a seed-rotated 1/97 of all combinations on the "
         "corpus; thorough = every combination x Simplify on/off on the corpus, the covering array x on/off elsewhere. "
         "VERIF_SEED rotates which 1/8 slice of mutations/generated programs/arithmetic expressions the quick tier visits. "
